@@ -478,6 +478,15 @@ class DirArr:
 
 class Disc2D:
     """abstract fvm2dcart with mesh2d built by interpreting its constructor"""
+    def _ctor_attr(self, param, default):
+        """name of the attribute in which the constructor keeps its parameter `param` (private names may change)"""
+        try:
+            summ = self.proj.ctor_summary(self.proj.cls("modeldisc.fvm2dcart"))
+        except AnalysisError:
+            return default
+        hits = [a for a, b in summ.items() if b == ("param", param)]
+        return hits[0] if len(hits) == 1 else default
+
     def __init__(self, proj, neq_shapes=(1,), bctypes=None):
         self.proj = proj
         self.eng = E = Engine(proj)
@@ -514,7 +523,7 @@ class Disc2D:
         self.field = ObjStub("field", {"zero_datalist": zero_datalist, "data": "FIELD-DATA"})
         self.model = ObjStub("model", {"shape": list(self.shapes)})
         self.so = SelfObj(self.fvm_cls, {"mesh": self.mesh, "neq": len(self.shapes), "nelem": E.nx * E.ny, "field": self.field,
-                                         "pdata": self.pdata, "qdata": self.pdata, "_bclist": bclist, "model": self.model})
+                                         "pdata": self.pdata, "qdata": self.pdata, self._ctor_attr("bclist", "_bclist"): bclist, "model": self.model})
 
     def fvm(self, name, *args):
         f = self.proj.resolve(self.fvm_cls, name)
